@@ -201,11 +201,18 @@ func TestC04(t *testing.T) {
 						}
 						op = "evict"
 						owner, part := c.OwnerOf(c.Live()[0], "c04", key)
-						for tries := 0; tries < 200; tries++ {
+						// one pass of the sampler looks at a handful of keys of one storage table of the fragment: repeat until it
+						// has come across this key (in a fragment with thousands of keys that takes a while)
+						evicted := false
+						for until := time.Now().Add(10 * time.Second); time.Now().Before(until); {
 							owner.V.DMap.VerifEvictOnce(part)
 							if _, ok := owner.V.DMap.VerifEntry("c04", key, partitions.PRIMARY); !ok {
+								evicted = true
 								break
 							}
+						}
+						if !evicted {
+							continue // the sampler has not found the key: there is no eviction to judge
 						}
 						rep = Reply{Ret: "ok"}
 					}
